@@ -11,7 +11,7 @@ CHECKS = {
  "C01": dict(
     level="model_checking", ref="DESIGN.md §4 C01",
     technique="TLA+ spec RtStream/RtStreamAbs checked by TLC + TLC-generated call sequences replayed through libovni and validated against the spec (trace validation)",
-    text="TLC explores every call sequence of the scaled faithful model (CAP=56) and every fill level of the real 2 MiB buffer in the size-abstracted model; invariants Fidelity, OnlyMarkers, HeaderFirst, Tiling, BufferBound. The spec is bound to src/rt/ovni.c by replaying every call at every one of the last 64 fill levels plus TLC -simulate walks through the real library and validating the recorded file sizes and the decoded stream with RtStreamTrace.tla; runs are repeated under an LD_PRELOAD shim that makes write() truthfully short, and three-thread programs (all threads freeing at once, with and without relocation from OVNI_TMPDIR) are validated stream by stream; scripts also run with relocation, with 7-digit pid/tid, without the execute event in front, with payloads handed over in several ovni_payload_add calls, with the wall clock stepped backwards under the shim, with every sequence of up to three small events before the first flush, with every sequence of up to three flush-separated segments made of one kind of call only (plain events / marks / fitting jumbo events), and with the call under test as the last thing before the final flush. The inductive invariant 0 <= fill < CAP and no nested flush (RtStreamInd.tla, same arithmetic module) is discharged by Apalache for the real capacity and a symbolic jumbo size.",
+    text="TLC explores every call sequence of the scaled faithful model (CAP=56) and every fill level of the real 2 MiB buffer in the size-abstracted model; invariants Fidelity, OnlyMarkers, HeaderFirst, Tiling, BufferBound. The spec is bound to src/rt/ovni.c by replaying every call at every one of the last 64 fill levels plus TLC -simulate walks through the real library and validating the recorded file sizes and the decoded stream with RtStreamTrace.tla; runs are repeated under an LD_PRELOAD shim that makes write() truthfully short, and three-thread programs (all threads freeing at once, with and without relocation from OVNI_TMPDIR) are validated stream by stream; scripts also run with relocation, with 7-digit pid/tid, without the execute event in front, with payloads handed over in several ovni_payload_add calls, with the wall clock stepped backwards under the shim, with every sequence of up to three small events before the first flush, with every sequence of up to three flush-separated segments made of one kind of call only (plain events / marks / fitting jumbo events), with the call under test as the last thing before the final flush, and as programs with a time base of their own that starts at zero (clocks handed over = clocks in the stream). The inductive invariant 0 <= fill < CAP and no nested flush (RtStreamInd.tla, same arithmetic module) is discharged by Apalache for the real capacity and a symbolic jumbo size.",
     note="Payload/jumbo bytes are opaque ids in TLA+; their byte equality (MCV, clock, payload, jumbo data) is checked by the harness decoder against the driver's emit log. Logical clock abstracts CLOCK_MONOTONIC. Exhaustive only within the stated constants."),
  "C02": dict(
     level="model_checking", ref="DESIGN.md §4 C02",
@@ -22,12 +22,12 @@ CHECKS = {
  "C04": dict(
     level="model_checking", ref="DESIGN.md §4 C04",
     technique="TLA+ spec EmuCore/EmuFull (thread state machine) explored by TLC; one ovniemu history per model transition (accepted and rejected, with legal completion); observed thread.prv timelines and verdict validated by EmuTrace.tla",
-    text="TLC enumerates the full state graph of 2 threads x {OHx,OHp,OHr,OHc,OHw,OHe} x 3 CPU targets with invariants (TidShownIffActive, CpuIffStarted, ...). Every transition of the graph becomes a synthetic trace replayed by the real ovniemu (accepted with completion, rejected, rejected with completion, and cut short before the completion; a quarter with same-instant events); trace validation compares the state/TID/CPU timelines after every event and the final verdict with the specification, so both directions of the 'accepted exactly when legal' claim are exercised.",
+    text="TLC enumerates the full state graph of 2 threads x {OHx,OHp,OHr,OHc,OHw,OHe} x 3 CPU targets with invariants (TidShownIffActive, CpuIffStarted, ...). Every transition of the graph becomes a synthetic trace replayed by the real ovniemu (accepted with completion, rejected, rejected with completion, and cut short before the completion; a quarter with same-instant events); trace validation compares the state/TID/CPU timelines after every event and the final verdict with the specification, so both directions of the 'accepted exactly when legal' claim are exercised. A second instance interleaves kernel context switches (KCO/KCI) with the life-cycle and affinity events; a two-step cover (an accepted transition followed by a second event of the same kind) is added.",
     note="Bounded: 2 threads, histories up to the graph diameter; rows identified through .row names. Events of a stream after its thread is dead are Unspecified (a dead thread executing again is rejected: fixed defect 958e849)."),
  "C05": dict(
     level="model_checking", ref="DESIGN.md §4 C05",
     technique="TLA+ spec EmuCore (CPU occupancy, local/remote affinity) explored by TLC; transition-cover histories replayed on ovniemu; cpu.prv/thread.prv timelines validated by EmuTrace.tla",
-    text="Bounded model with 4 threads in 3 processes and 2 looms, physical and virtual CPUs, OHx/OHp/OHr/OHe/OAs/OAr incl. malformed payloads and foreign looms; invariants NoPhysOversubscription, CpuMirrorsThreads. A second instance has two looms whose threads carry the same TIDs (TIDs are unique per loom only). Sampled (quick) or full (thorough) transition cover plus a two-step cover (an accepted transition followed by a second event of the same kind) replayed on the emulator and validated event by event (nrunning, TID, PID per CPU).",
+    text="Bounded model with 4 threads in 3 processes and 2 looms, physical and virtual CPUs, OHx/OHp/OHr/OHe/OAs/OAr incl. malformed payloads and foreign looms; invariants NoPhysOversubscription, CpuMirrorsThreads. A second instance has two looms whose threads carry the same TIDs (TIDs are unique per loom only), a third interleaves kernel context switches (KCO/KCI: a switched-out thread is still running and still occupies its CPU). Sampled (quick) or full (thorough) transition cover plus a two-step cover (an accepted transition followed by a second event of the same kind) replayed on the emulator and validated event by event (nrunning, TID, PID per CPU).",
     note="OAr to the CPU the thread is already on is accepted as the identity (fixed defect d92fa81); bounded: 4 threads, 2 looms."),
  "C06": dict(
     level="model_checking", ref="DESIGN.md §4 C06",
@@ -42,12 +42,12 @@ CHECKS = {
  "C08": dict(
     level="model_checking", ref="DESIGN.md §4 C08",
     technique="TLA+ spec Emu (stack machine over committed event tables EventData.tla) explored by TLC per model; transition cover + every enter/leave pair of all 8 models in 10 shapes + depth probes replayed on ovniemu -l and validated by EmuTrace.tla",
-    text="For each model a bounded instance (3 region kinds, for Nanos6 also two tasks whose execution nests on the same stack, bystander thread, thread state changes) is explored and replayed; additionally all 149 push/pop pairs of the tables are exercised (enter/leave/mismatch/empty/lint/state precondition incl. paused, cooling and warming/nesting) and the 512-deep stack limit is probed; the value shown for the innermost region comes from the committed table.",
+    text="For each model a bounded instance (3 region kinds, for Nanos6 also two tasks whose execution nests on the same stack, bystander thread, thread state changes) is explored and replayed; additionally all 149 push/pop pairs of the tables are exercised (enter/leave/nested/mismatch/leave on empty/open at end under lint always; state preconditions incl. paused, cooling and warming, re-entry sampled in the quick tier) and the 512-deep stack limit is probed; the value shown for the innermost region comes from the committed table.",
     note="Tables are committed data (spec/data/events.json) transcribed from documentation and model tables; immediate re-entry is Unspecified."),
  "C17": dict(
     level="model_checking", ref="DESIGN.md §4 C17",
     technique="TLA+ spec EmuFull (mark channels: stack/single, ACTIVE/RUNNING tracking) explored by TLC; transition cover replayed on ovniemu and validated by EmuTrace.tla; runtime side through drivers/rtdrive",
-    text="Bounded model with a stack and a single mark type, two threads, pause/cool/migrate; push on single, set on stack, zero values, undefined types and mismatched pops must be rejected; timelines of types 101/102 on thread and CPU rows validated after every event.",
+    text="Bounded model with a stack and a single mark type, two threads, pause/cool/migrate; push on single, set on stack, zero values, undefined types and mismatched pops must be rejected; timelines of types 101/102 on thread and CPU rows validated after every event; depth probes at the stack limit (511/512/513/600 values, well nested and with a wrong pop on top).",
     note="Runtime side: spec MarkRt (ovni_mark_type/label/push/pop/set refusals and metadata merging) with programs replayed on libovni through drivers/markdrive, then emulated."),
 
  "C09": dict(
@@ -58,7 +58,7 @@ CHECKS = {
  "C10": dict(
     level="fault_enumeration", ref="DESIGN.md §4 C10",
     technique="TLA+ spec RtFs with a Fail alternative for every call (one fault per run) checked by TLC; every libovni system call of every scenario is failed with strace error injection on the real library and the outcome is judged by the C10 monitors of RtFsTrace.tla",
-    text="TLC checks C10a/b/c (normal return => a complete copy exists; the only complete copy is never deleted; nothing accepted lacks flushed bytes) for a single failing call anywhere, and refutes the variant that ignores copy errors. Two-thread programs (spec RtFs2) get the same treatment per thread. On the code each call index is failed with ENOSPC/EIO/EACCES (the call is not executed) and the exit kind (abort with diagnostic / normal return), the disk state of tmp and final directories and the emulator verdicts are validated.",
+    text="TLC checks C10a/b/c (normal return => a complete copy exists; the only complete copy is never deleted; nothing accepted lacks flushed bytes) for a single failing call anywhere, and refutes the variant that ignores copy errors. Two-thread programs (spec RtFs2) get the same treatment per thread. On the code each call index (incl. the stat family, which the model's script does not list) is failed with ENOSPC/EIO/EACCES/ESTALE (the call is not executed) and the exit kind (abort with diagnostic / normal return), the disk state of tmp and final directories and the emulator verdicts are validated.",
     note="Error injection skips the call (no partial effect); truthful short writes are injected separately through an LD_PRELOAD shim (every write returns at most k bytes) and must leave complete streams. Faults are single."),
  "C11": dict(
     level="model_checking", ref="DESIGN.md §4 C11",
@@ -68,12 +68,12 @@ CHECKS = {
  "C13": dict(
     level="model_checking", ref="DESIGN.md §4 C13",
     technique="TLA+ specs PrvTrace (clauses of the property as operators; expected row names from SystemOps) and ChanPrv (channel + Paraver writer implementation layer, replayed in process) evaluated by TLC on the real .prv/.pcf/.row files of accepted runs over TLC-generated histories of all bounded models and the metadata family",
-    text="Every clause (non-decreasing times, rows in range, header duration = last event time, types declared in the .pcf, labelled state values, .row names/count/order) is evaluated by TLC on the files written by the real emulator for thousands of accepted runs covering all models, marks, tasks (incl. type labels whose hash sits on a boundary of the gid arithmetic), ranks, two looms, multi-process systems, histories followed by events that change no timeline (the trace lasts until the last of them) and the breakdown files written with -b. The writer itself is modelled (spec ChanPrv: stack/single channels, propagate phases, prv.c duplicate/zero/NEXT rules, non-decreasing times, header = last advance, track.c modes; 7 refuted wrong variants) and ~19k TLC-exported call sequences are replayed in process on the real chan/bay/prv/track objects (drivers/chanprvharness).",
+    text="Every clause (non-decreasing times, rows in range, header duration = last event time, types declared in the .pcf, labelled state values, .row names/count/order) is evaluated by TLC on the files written by the real emulator for thousands of accepted runs covering all models, marks, tasks (incl. type labels whose hash sits on a boundary of the gid arithmetic), ranks, two looms, multi-process systems, histories followed by events that change no timeline (the trace lasts until the last of them), histories the specification rejects (judged whenever the emulator accepts them all the same, incl. uses of what a refused creation would have created) and the breakdown files written with -b. The writer itself is modelled (spec ChanPrv: stack/single channels, propagate phases, prv.c duplicate/zero/NEXT rules, non-decreasing times, header = last advance, track.c modes; 7 refuted wrong variants) and ~19k TLC-exported call sequences are replayed in process on the real chan/bay/prv/track objects (drivers/chanprvharness).",
     note="Speaks of accepted traces only; 64-bit values are folded before TLC; the semantics of breakdown rows is C20, their well-formedness is checked here."),
  "C14": dict(
     level="model_checking", ref="DESIGN.md §4 C14",
     technique="TLA+ spec Version (Compatible/Parse/ShouldEnable + code-shaped layer) checked exhaustively by TLC; exported cases replayed on version_parse/version_is_compatible/ovni_version_check_str/ovni_thread_require and on ovniemu (require versions, model enabling)",
-    text="TLC enumerates all (want, have) triples over 0..3, all strings up to length 6/7 over a 6-character alphabet and all (events, requires, -a) configurations of 8 models (half of them with decoy names in the require table that extend a model name) with 18 invariants and 6 refuted negative configurations; >100k exported cases are replayed on the real runtime functions and the emulator.",
+    text="TLC enumerates all (want, have) triples over 0..3, all strings up to length 6/7 over a 6-character alphabet and all (events, requires, -a) configurations of 8 models (half of them with decoy names in the require table that extend a model name) with 18 invariants and 6 refuted negative configurations; >100k exported cases are replayed on the real runtime functions and the emulator; every other must-refuse version case carries no event of the model, so that the version is the only reason to refuse.",
     note="The grammar is N.N.N with an optional -suffix; everything else is malformed (fixed defect: the pinned parser read empty components, a 4th component and strtol spellings leniently). Numbers of 10+ digits are Unspecified."),
  "C15": dict(
     level="model_checking", ref="DESIGN.md §4 C15",
@@ -84,7 +84,7 @@ CHECKS = {
  "C18": dict(
     level="model_checking", ref="DESIGN.md §4 C18",
     technique="TLA+ spec Catalogue (over EmuFull + committed event tables): witness contexts by TLC reachability, verdict for every code of the 8 x 94 x 94 code space, Decode of description templates; probes and decodings replayed on ovnievents / ovniemu / ovnidump",
-    text="TLC finds for each of the 348 listed events the shortest history after which it is accepted, evaluates the reference semantics on all 70,688 printable three-character codes plus the single-bit changes and bit-7 images of every listed code (thorough: all 397,832 codes with bytes 33..255) (invariant: rejected exactly when neither listed nor excepted) and computes the expected ovnidump text for argument vectors (integers over the whole range of each type, labels incl. UTF-8 bytes); ovnievents output is compared with the committed table in both directions, every listed event is replayed in its witness context, unlisted codes are probed (quick: neighbourhood + sample + payload-shaped probes; thorough: the whole space) and decodings compared, per model and in traces that mix all models so that codes differing in the model byte only are neighbours.",
+    text="TLC finds for each of the 348 listed events the shortest history after which it is accepted, evaluates the reference semantics on all 70,688 printable three-character codes plus the single-bit changes and bit-7 images of every listed code (thorough: all 397,832 codes with bytes 33..255) (invariant: rejected exactly when neither listed nor excepted) and computes the expected ovnidump text for argument vectors (integers over the whole range of each type, labels incl. UTF-8 bytes); ovnievents output is compared with the committed table in both directions, every listed event is replayed in its witness context, unlisted codes are probed (quick: neighbourhood + sample + payload-shaped probes; thorough: the whole space) and decodings compared, per model and in traces that mix all models so that codes differing in the model byte only are neighbours; unlisted, not excepted codes are dumped as well and must get no description.",
     note="The table is committed data; printf formatting is reproduced for the conversions the catalogue uses."),
  "C20": dict(
     level="model_checking", ref="DESIGN.md §4 C20",
@@ -95,7 +95,7 @@ CHECKS = {
  "C03": dict(
     level="model_checking", ref="DESIGN.md §4 C03",
     technique="TLA+ specs Player/PlayerMerge (property layer Merge), PtrHeap/PlayerHeap/HeapOps (heap.h and player.c transcribed) checked by TLC incl. refinement HeapPlayer => Merge; exported heap op sequences replayed on the real heap.h (drivers/heapharness), exported stream sets replayed through ovnidump/ovnitop/ovniemu in several enumeration orders and validated by PlayerTrace.tla",
-    text="TLC checks the structural heap invariants and that every emission of the pointer-heap player is an allowed step of the abstract k-way merge (ties free), corrected clocks and output times, independence of the enumeration order, with 12 refuted negative configurations. ~19k heap op sequences are replayed on heap.h comparing popped keys and the whole pointer structure; 1200 (quick) stream sets with offset tables are materialised in several directory orders (and nftw orders through a shim), also with clocks seconds apart, with looms sharing a host name, with one loom per process and ranks placed round-robin over the hosts, with offset tables in integer / fixed / exponent notation with an extra event-less non-thread stream and with a loom or thread directory reached through a symbolic link, and the observed replay order / PRV times validated by TLC.",
+    text="TLC checks the structural heap invariants and that every emission of the pointer-heap player is an allowed step of the abstract k-way merge (ties free), corrected clocks and output times, independence of the enumeration order, with 12 refuted negative configurations. ~19k heap op sequences are replayed on heap.h comparing popped keys and the whole pointer structure; 1200 (quick) stream sets with offset tables are materialised in several directory orders (and nftw orders through a shim), also with clocks seconds apart, with looms sharing a host name, with host names one of which is a prefix of the other, with one loom per process and ranks placed round-robin over the hosts, with offset tables in integer / fixed / exponent notation with an extra event-less non-thread stream and with a loom or thread directory reached through a symbolic link, and the observed replay order / PRV times validated by TLC.",
     note="ovnidump/ovnitop have no clock-offset input (offsets exercised on ovniemu only); a stream whose first corrected clock is negative is refused by the code (modelled via Base, assumption)."),
  "C12": dict(
     level="model_checking", ref="DESIGN.md §4 C12",
@@ -106,13 +106,13 @@ CHECKS = {
  "C16": dict(
     level="model_checking", ref="DESIGN.md §4 C16",
     technique="TLA+ spec OvniSort (property layer SortedStablePermutation/PrefixUntouched/Idempotent + implementation layer: region automaton, look-back ring, find_destination, stable re-sort, ring rebuild) checked by TLC for refinement over all small streams; exported streams replayed through ovnisort / ovnisort -c / ovniemu and random larger runs validated by OvniSortTrace.tla",
-    text="TLC explores every stream of <=6 events over 3-4 clock values with regions, jumbo events and several ring sizes (0.77M states quick, 9.8M thorough): Impl => Property, tightness of the look-back precondition, idempotence, five refuted negative configurations. ~7400 exported (stream, ring) pairs are materialised byte for byte and the tool's exit status, output order, size, untouched prefix, second run, check mode and emulator verdict compared with TLC's; random streams up to thousands of events and traces with two streams (the look-back ring must not leak between streams) are validated in the recorded direction; a third of all cases is written with clocks seconds apart (differences beyond 2^31 ns), and about half of the normal events carry no payload.",
+    text="TLC explores every stream of <=6 events over 3-4 clock values with regions, jumbo events and several ring sizes (0.77M states quick, 9.8M thorough): Impl => Property, tightness of the look-back precondition, idempotence, five refuted negative configurations. ~7400 exported (stream, ring) pairs are materialised byte for byte and the tool's exit status, output order, size, untouched prefix, second run, check mode and emulator verdict compared with TLC's; random streams up to thousands of events and traces with two streams (the look-back ring must not leak between streams) are validated in the recorded direction; a third of all cases is written with clocks seconds apart (differences beyond 2^31 ns), about half of the normal events carry no payload, and streams of ~3000 events dominated by one region that belongs near the start are sorted with the default window.",
     note="Stability relies on glibc's merge-sort qsort; outside the preconditions the tool may fail; exit 0 always means a sorted stream (fixed defect c7e4054); a second run may fail when the sorted stream no longer satisfies the look-back (file unchanged)."),
 
  "C19": dict(
     level="exploration", ref="DESIGN.md §4 C19 (incl. its stated limit)",
     technique="TLA+ spec Decoder (stream decoder with C integer semantics scaled to 8 bits: guarded variant satisfies CursorInBounds/Progress/HeaderReadInBounds/ReadsWithinEvent, the unguarded arithmetic of the pinned commit is refuted) used to generate the structure-aware input family; all four tools run on it from the ASan+UBSan build with heap-buffer stream loading (hook H1) under timeout",
-    text="TLC proves the guarded decoder design within scaled integers (58k states quick, 23M thorough) and refutes each invariant on the arithmetic of the pinned commit; the transition/boundary classes of the model plus structure-aware mutations (size fields, flags, truncations, payload shapes per handler, sort windows wider than 2^31/2^32 ns, unterminated strings, every metadata key x JSON type, random stage) give ~6300 inputs (quick) x up to 7 tool invocations (ovniemu -l, ovniemu -d, ovnidump, ovnitop, ovnisort -c, ovnisort, ovnisort -n 4 so that the look-back ring wraps); a case fails iff a tool dies by a signal, times out, a sanitizer reports or the exit status is not 0/1; failures are grouped by signature.",
+    text="TLC proves the guarded decoder design within scaled integers (58k states quick, 23M thorough) and refutes each invariant on the arithmetic of the pinned commit; the transition/boundary classes of the model plus structure-aware mutations (size fields, flags, truncations, payload shapes per handler, sort windows wider than 2^31/2^32 ns, unterminated strings and labels around the 1 KiB line buffers, every metadata key x JSON type, random stage) give ~6300 inputs (quick) x up to 7 tool invocations (ovniemu -l, ovniemu -d, ovnidump, ovnitop, ovnisort -c, ovnisort, ovnisort -n 4 so that the look-back ring wraps); a case fails iff a tool dies by a signal, times out, a sanitizer reports or the exit status is not 0/1; failures are grouped by signature.",
     note="A TLA+ model cannot establish memory safety of C: claimed is the decoder design within scaled integers plus absence of crashes/hangs/sanitizer reports on the generated family; ASan/UBSan are the observation channel."),
 }
 
